@@ -477,7 +477,7 @@ def evb3(b, env, memo=None, K=64.0):
     if memo is None: memo = {}
     o = b.op
     if o == 'lit': return b.a[0]
-    if o == 'bvar': return bool(env[b.a[0]])
+    if o == 'bvar': return bool(env[b.a[0]]) if b.a[0] in env else None
     if o == 'not':
         r = evb3(b.a[0], env, memo, K)
         return None if r is None else (not r)
@@ -517,7 +517,7 @@ class TooBig(Exception):
     pass
 
 
-_LIMIT = 60000
+_LIMIT = 400000
 
 
 def _padd(p, q, sign=1):
@@ -581,9 +581,39 @@ def ring_equal(a, b, memo=None):
         return False
 
 
+def unify_ites(x):
+    """ite nodes whose conditions and branches are ring-equal are identified (e.g. the clamp `v if v >= 0 else 0` applied to
+    two ring-equal values): returns x with the later ones replaced by the first"""
+    ites = []
+    walk(x, lambda n: ites.append(n) if isinstance(n, T) and n.op == 'ite' else None)
+    if len(ites) < 2 or len(ites) > 12: return x
+    ites.sort(key=lambda n: n.id)
+    rep = {}
+    memo = {}
+    def cond_eq(c1, c2):
+        if c1 is c2: return True
+        if c1.op == 'cmp' and c2.op == 'cmp' and c1.a[0] == c2.a[0]:
+            try: return ring_equal(c1.a[1] - c1.a[2], c2.a[1] - c2.a[2], memo)
+            except RecursionError: return False
+        return False
+    for i, a in enumerate(ites):
+        if a.id in rep: continue
+        for b in ites[i + 1:]:
+            if b.id in rep: continue
+            try:
+                if cond_eq(a.a[0], b.a[0]) and ring_equal(a.a[1], b.a[1], memo) and ring_equal(a.a[2], b.a[2], memo): rep[b.id] = a
+            except RecursionError:
+                pass
+    if not rep: return x
+    return subst(x, {('#', i): r for i, r in rep.items()})
+
+
 def ring_proves(goal, memo=None):
     """goal is a conjunction of equalities, each an identity of rational functions"""
-    if memo is None: memo = {}
+    if memo is None:
+        memo = {}
+        try: goal = unify_ites(goal)
+        except RecursionError: pass
     if goal.op == 'lit': return goal.a[0]
     if goal.op == 'and': return all(ring_proves(g, memo) for g in goal.a)
     if goal.op == 'cmp' and goal.a[0] == '==': return ring_equal(goal.a[1], goal.a[2], memo)
